@@ -60,6 +60,8 @@ def run(chk: Check, proj: Project) -> None:
     s6_container_loop(chk, proj)
     s13_close_matches_open(chk, proj)
     s14_constant_index_guarded(chk, proj)
+    s15_offset_index_guarded(chk, proj)
+    s16_children_serialised_once(chk, proj)
     s11_builtins_fed_with_tag_text(chk, proj)
     s7_foreign_leaks(chk, proj)
     s8_built_patterns(chk, proj)
@@ -739,6 +741,76 @@ def s11_builtins_fed_with_tag_text(chk: Check, proj: Project) -> None:
                    f"the class name depends on {sorted(deps) or 'constants'} only" if not text_params else
                    f"`{short(c, 70)}` names the class after `{', '.join(sorted(text_params))}`, text taken from the template: `{{% component \"a\\x00b\" %}}` as the first component tag compiled makes type() raise ValueError ('type name must not contain null characters') instead of TemplateSyntaxError")
     chk.floor("S11", n, 1)
+
+
+_FIXTURE_OFFSET = "def f(xs):\n    for i in range(0, len(xs), 2):\n        k, v = xs[i], xs[i + 1]\n"
+
+
+def _offset_reads(fn: ast.AST) -> List[Tuple[ast.Subscript, str]]:
+    """Reads `<list>[<name> + k]` / `<list>[<name> - k]` (k a positive constant) of a local list other than the scanned text."""
+    out = []
+    for x in ast.walk(fn):
+        if isinstance(x, ast.Subscript) and isinstance(x.ctx, ast.Load) and isinstance(x.value, ast.Name) and isinstance(x.slice, ast.BinOp) and isinstance(x.slice.op, (ast.Add, ast.Sub)):
+            l, r = x.slice.left, x.slice.right
+            if isinstance(l, ast.Name) and isinstance(r, ast.Constant) and isinstance(r.value, int) and r.value > 0:
+                out.append((x, x.value.id))
+    return out
+
+
+def s15_offset_index_guarded(chk: Check, proj: Project) -> None:
+    chk.rule("S15", "pairwise walks over a list built from the tag's text (`xs[i], xs[i + 1]`) read the neighbour only under a bounds fact about that list (`i + 1 < len(xs)`, or an even-length check that raises TemplateSyntaxError first): a dictionary literal whose last key has its colon but no value (`{\"a\": }`) otherwise ends in IndexError")
+    fx = ast.parse(_FIXTURE_OFFSET)
+    if len(_offset_reads(fx)) != 1:
+        raise AnalysisError("C12-S15 positive fixture no longer matches: rule is broken")
+    m = proj.mod("util.tag_parser")
+    n = 0
+    for q, f in sorted(m.defs.items()):
+        if not isinstance(f, ast.FunctionDef) or isinstance(getattr(f, "parent", None), ast.FunctionDef):
+            continue
+        for x, base in _offset_reads(f):
+            if base in ("text",):
+                continue  # S2b's subject
+            n += 1
+            facts = [norm(e) for e, pol in flatten_conj(path_conditions(x)) if f"len({base})" in norm(e)]
+            chk.ob("S15", f"util.tag_parser:{q}:{norm(x)}:neighbour-read-in-bounds", m.loc(x), bool(facts),
+                   f"`{norm(x)}` is read under `{facts[0]}`" if facts else
+                   f"`{norm(x)}` reads the neighbour of the loop position without any fact about `len({base})`: when the tag's text leaves the list with an odd number of entries (a key with its colon but no value) the parser dies with IndexError instead of TemplateSyntaxError")
+    chk.holds("S15", "fixture:offset-read", "fixture.py:3", f"positive fixture matched (rule is alive); {n} such read(s) on the tree", nontrivial=False)
+
+
+def s16_children_serialised_once(chk: Check, proj: Project) -> None:
+    chk.rule("S16", "serialising a nested list / dict literal is linear in its size: on every path through TagValueStruct.serialize each child is handed to the recursive step at most once (two loops over `self.entries` that both recurse, not in mutually exclusive branches, double the work per nesting level - 2^depth at template-compile time for a literal well under the depth limit)")
+    m = proj.mod("util.tag_parser")
+    f = m.func("TagValueStruct.serialize")
+    chk.analysed(fkey(m, f))
+    helpers = {x.name for x in ast.walk(f) if isinstance(x, ast.FunctionDef) and x is not f and any(isinstance(c, ast.Call) and isinstance(c.func, ast.Attribute) and c.func.attr == "serialize" for c in ast.walk(x))}
+    sites = []
+    for x in ast.walk(f):
+        it = None
+        body = None
+        if isinstance(x, (ast.ListComp, ast.GeneratorExp, ast.SetComp)):
+            it, body = x.generators[0].iter, x.elt
+        elif isinstance(x, ast.For):
+            it, body = x.iter, x
+        if it is None or "entries" not in norm(it):
+            continue
+        if any(isinstance(c, ast.Call) and ((isinstance(c.func, ast.Name) and c.func.id in helpers) or (isinstance(c.func, ast.Attribute) and c.func.attr == "serialize")) for c in ast.walk(body)):
+            sites.append(x)
+    chk.floor("S16", len(sites), 2)
+
+    def conds(x):
+        return {(norm(e), pol) for e, pol in flatten_conj(path_conditions(x, upto=f))}
+
+    clash = None
+    for i_, a in enumerate(sites):
+        for b in sites[i_ + 1:]:
+            ca, cb = conds(a), conds(b)
+            exclusive = any((t, not p_) in cb for t, p_ in ca)
+            if not exclusive and not any(a is y for y in ast.walk(b)) and not any(b is y for y in ast.walk(a)):
+                clash = clash or (a, b)
+    chk.ob("S16", "util.tag_parser:TagValueStruct.serialize:each-child-recursed-once", m.loc(clash[1]) if clash else m.loc(f), clash is None,
+           f"the {len(sites)} recursive loops over the entries stand in mutually exclusive branches" if clash is None else
+           f"`{short(clash[0], 60)}` and `{short(clash[1], 60)}` both recurse into every child on the same path: serialising a dict literal nested d levels deep costs 2^d - `Template()` needs seconds for 18 levels and does not come back for 25, far below the nesting limit")
 
 
 def s14_constant_index_guarded(chk: Check, proj: Project) -> None:
